@@ -64,12 +64,13 @@ NlvShapes == { <<"plain", Nlv(<<LR(NilTag, "hello")>>)>>, <<"tagged1", Nlv(<<LR(
                <<"multi2", Nlv(<<LR("en", "hello"), LR("fr", "salut")>>)>>,
                <<"multi3", Nlv(<<LR("en", "hello"), LR("fr", "salut"), LR("de", "hallo")>>)>>,
                <<"mixed", Nlv(<<LR(NilTag, "hello"), LR("fr", "salut")>>)>> }       \* an untagged value next to a tagged one ("-" key of a language map)
-TimeShapes(gob) == { <<"utc", T(1700000000, 0, 0)>>, <<"plus2", T(1700003600, 0, 7200)>>, <<"minus7", T(1600000000, 0, 0 - 25200)>> }
+TimeShapes(gob) == { <<"utc", T(1700000000, 0, 0)>>, <<"plus2", T(1700003600, 0, 7200)>>, <<"minus7", T(1600000000, 0, 0 - 25200)>>,
+                     <<"pre-epoch", T(0 - 1000000000, 0, 0)>>, <<"y2038", T(2147483647, 0, 3600)>>, <<"epoch-plus1", T(1, 0, 0)>> }
                    \cup (IF gob THEN {<<"nanos", T(1700000001, 123456789, 3600)>>} ELSE {})
 DurShapes == { <<"pos", Dur(5)>>, <<"neg", Dur(0 - 5)>>, <<"hour", Dur(3725)>>, <<"day", Dur(86400)>>, <<"neg3days", Dur(0 - 259200)>>, <<"dayhour", Dur(90000)>>,
               <<"d28", Dur(2419200)>>, <<"neg29d", Dur(0 - 2505600)>>, <<"d340", Dur(29376000)>>, <<"d400h5", Dur(34578000)>> }   \* beyond the lengths of a month and a year
-UintShapes == { <<"one", Int(1)>>, <<"big", Int(123456)>> }
-IntShapes == { <<"pos", Int(12)>>, <<"neg", Int(0 - 12)>> }
+UintShapes == { <<"one", Int(1)>>, <<"big", Int(123456)>>, <<"max31", Int(2147483647)>> }
+IntShapes == { <<"pos", Int(12)>>, <<"neg", Int(0 - 12)>>, <<"max31", Int(2147483647)>>, <<"min31", Int(0 - 2147483647)>> }
 FloatShapes == { <<"pos", Flt("36.75")>>, <<"neg", Flt("-122.5")>>, <<"small", Flt("0.000001")>>, <<"whole", Flt("100")>>, <<"precise", Flt("-122.4194155")>>, <<"tiny", Flt("0.0000001")>>,
                 <<"tiny-digits", Flt("0.000000247164515977853")>>, <<"huge-digits", Flt("1234567890123456800000")>> }   \* exponent form for an independent writer
 StrShapes(kind, t) ==
@@ -86,6 +87,8 @@ EndpointsShapes == { <<"ep-" \o EndpointsProps[i].t, [k |-> "endpoints", p |-> [
                    \cup { <<"ep-all", [k |-> "endpoints", p |-> [x \in Terms(EndpointsProps) |-> Iri(Base \o "ep/" \o x)]]>> }
 PubKeyShapes == { <<"id-only", [k |-> "pubkey", p |-> [id |-> Str(Base \o "actor#main-key")]]>>, <<"owner-only", [k |-> "pubkey", p |-> [owner |-> Str(Base \o "actor")]]>>,
                   <<"pem-only", [k |-> "pubkey", p |-> [publicKeyPem |-> Str("-----BEGIN PUBLIC KEY-----MIIB-----END PUBLIC KEY-----")]]>>,
+                  <<"pem-lines", [k |-> "pubkey", p |-> [id |-> Str(Base \o "actor#main-key"), owner |-> Str(Base \o "actor"),
+                                                          publicKeyPem |-> Str("-----BEGIN PUBLIC KEY-----\nMIIBIjANBgkqhkiG9w0BAQEFAAOCAQ8A+/=\n-----END PUBLIC KEY-----\n")]]>>,
                   <<"full", [k |-> "pubkey", p |-> [id |-> Str(Base \o "actor#main-key"), owner |-> Str(Base \o "actor"), publicKeyPem |-> Str("-----BEGIN PUBLIC KEY-----MIIB-----END PUBLIC KEY-----")]]>> }
 
 Shapes(kind, t, deep, gob) ==
